@@ -75,6 +75,36 @@ def run(tier):
                 cmds += ["sumoff 0", "sumoff 1", "wrapreport"]
                 cases.append(cmds)
                 meta.append(("content", size, ending, variant, path))
+    # several files one after the other on the SAME instance (longer, then shorter, then empty, line-aligned or not): what an
+    # earlier file call left behind (a cached mapping, a stale tail) must not show in a later one
+    made = [(m[4], m[1]) for m in meta if m[0] == "content" and m[3] == "file"]
+    texts = {}
+    for pth, _ in made:
+        with open(pth, newline="") as f:
+            texts[pth] = f.read()
+    nseq = 150 if not full else 3000
+    for k in range(nseq):
+        n = rnd.randrange(2, 6)
+        seq = [rnd.choice(made) for _ in range(n)]
+        seq.sort(key=lambda x: -x[1])  # mostly decreasing sizes ...
+        if k % 3 == 0:
+            rnd.shuffle(seq)  # ... sometimes any order
+        if k % 4 == 0:
+            seq.append(rnd.choice([m for m in made if m[1] == 0]))  # an empty file last
+        cmds = ["wrap reset", "wrap guardfiles 1", "new 0 int", "new 1 int"]
+        steps = []
+        for pth, size in seq:
+            variant = rnd.choice(["file", "filecnt"])
+            c = rnd.choice([2, 5, 16, 64, 0])
+            cmds += ["setoff 0 0", "setoff 1 0"]
+            if variant == "file":
+                cmds += ["file 0 %s" % pth, "asm 1 %s" % common.hx(texts[pth])]
+            else:
+                cmds += ["filecnt 0 %d %s" % (c, pth), "cnt 1 %d %s" % (c, common.hx(texts[pth]))]
+            cmds += ["sumoff 0", "sumoff 1"]
+            steps.append((size, variant))
+        cases.append(cmds)
+        meta.append(("sequence", steps, None, "mixed", None))
     # missing / unusable paths
     os.makedirs(os.path.join(wd, "adir"), exist_ok=True)
     with open(os.path.join(wd, "plainfile"), "w") as f:
@@ -121,6 +151,24 @@ def run(tier):
                 v.distinct((a, b, variant))
                 if v.cov["evaluations"] % 150 == 1:
                     v.sample({"size": a, "ending": b, "entry": variant, "rc": f[1], "offset": f[3]})
+        elif kind == "sequence":
+            stats["sequence_cases"] = stats.get("sequence_cases", 0) + 1
+            bad = None
+            for i, (size, variant) in enumerate(a):
+                base = 4 + 6 * i
+                f, s_, s0, s1 = recs[base + 2].split(), recs[base + 3].split(), recs[base + 4].split(), recs[base + 5].split()
+                if f[1] != s_[1]:
+                    bad = ("sequence:rc:file=%s,string=%s" % (f[1], s_[1]), "step %d (%d bytes, %s) of sizes %s: %s | %s" % (i, size, variant, [x[0] for x in a], recs[base + 2], recs[base + 3]))
+                elif f[1] == "0" and (f[3] != s_[3] or s0[1:] != s1[1:]):
+                    bad = ("sequence:offset/bytes-differ", "step %d (%d bytes, %s) of sizes %s: %s %s | %s %s" % (i, size, variant, [x[0] for x in a], recs[base + 2], recs[base + 4], recs[base + 3], recs[base + 5]))
+                elif f[1] == "0" and variant == "filecnt" and f[4] != s_[4]:
+                    bad = ("sequence:count-differs", "step %d: file %s | string %s" % (i, f[4], s_[4]))
+                if bad:
+                    break
+            if bad:
+                v.violation(case, bad[0], bad[1])
+            else:
+                v.distinct(("seq", tuple(a)))
         elif kind == "badpath":
             stats["badpath_cases"] += 1
             f = recs[4].split()
@@ -153,7 +201,7 @@ def run(tier):
                 v.distinct((kind, off))
     v.cov["rule"] = ("file contents of EVERY size 0..64 and every size within +/-16 of 1, 2 and 3 pages x 6 endings (newline, none, inside a comment, inside an instruction, a complete instruction / ret as last line without newline; CRLF lines inside) x both file entry points, "
                      "differentially against the string entry points on the same content (rc, offset, count, FNV of the code); ld --wrap mmap puts a PROT_NONE page right after every non-executable mapping the "
-                     "library creates, so a missing terminator faults deterministically; missing / directory / ENOTDIR paths must fail and leave the instance usable; asm_create_bin_file at offsets 0,1,2,19,4095..4097,6000,20000 must equal [0,offset)")
+                     "library creates, so a missing terminator faults deterministically; missing / directory / ENOTDIR paths must fail and leave the instance usable; asm_create_bin_file at offsets 0,1,2,19,4095..4097,6000,20000 must equal [0,offset); sequences of 2-6 file calls of (mostly) decreasing size, ending with an empty file, on ONE instance, each step compared with the string entry point")
     v.cov["exhaustive"] = True
     v.cov.update(stats)
     return v.finish(None, stats["content_cases"] > 300 and stats["guarded_mappings"] > 100, "too few file cases / guard never active: %r" % stats)
